@@ -25,145 +25,31 @@ LIVE_ITERS = ("iter", "getiterator", "iterdescendants", "itertext", "itersibling
 
 
 def run(repo: Repo, rep: Report):
+    from sa.rules import groups, sem
     svg = repo["svg"]
-    res = Resolver(repo)
     for rid, txt in [
         ("R-SITE.parser-flags", "XMLParser(remove_comments=True, remove_blank_text=True) at the only XML entry point"),
-        ("R-ORDER.junk-first", "junk removers dominate every stage that reads attributes or counts children"),
-        ("R-SITE.removers", "removers: materialised selection, complete target sets, no deletion during a live tree walk"),
-        ("R-SITE.redundant-filter", "child iterations that count/index/dispatch filter comments and processing instructions"),
+        ("R-ORDER.junk-first", "topicosvg interpreted on a schematic document with and without ignorable content at every level (processing instructions, nested title/desc/metadata, "
+                               "foreign elements and attributes, id-less symbols shadowing live ids, attribute-less wrapper groups): identical results"),
+        ("R-SITE.redundant-filter", "traversal numbering and the keep-or-flatten decision are independent of comments and processing instructions among the children"),
     ]:
         rep.rule(rid, txt)
     # ---- parser
     fs = svg.func("SVG.fromstring")
-    ps = [c for c in ast.walk(svg.tree) if isinstance(c, ast.Call) and call_name(c) == "etree.XMLParser"]
+    ps = [c for c in ast.walk(svg.tree) if isinstance(c, ast.Call) and call_name(c).endswith("XMLParser")]
     if len(ps) == 1 and _true(ps[0], "remove_comments") and _true(ps[0], "remove_blank_text"):
         rep.ok("R-SITE.parser-flags", "svg.SVG.fromstring: XMLParser(remove_comments=True, remove_blank_text=True)")
     else:
         rep.fail("R-SITE.parser-flags", "svg.SVG.fromstring", ps[0] if ps else "etree.XMLParser(...)", "comments / inter-element whitespace are no longer dropped at parse time", svg, ps[0] if ps else fs)
-    # ---- order
-    from sa.rules.c01 import topicosvg_order
-    order = topicosvg_order(repo, res)
-    F = "svg.SVG.topicosvg"
-    rep.saw(F)
-    entry = order.branch_entry("not inplace", "false")
-    for r in REMOVERS:
-        if not order.has(r) or not order.on_all_paths_from(entry, r):
-            rep.fail("R-ORDER.junk-first", F, f"self.{r}(inplace=True)", f"{r} is not on every path of the conversion", svg, svg.func("SVG.topicosvg"))
-            continue
-        if r == "remove_processing_instructions":
-            rep.ok("R-ORDER.junk-first", f"{F}: {r} on every path")
-        for s in READERS:
-            bad = order.must_precede(r, s)
-            if bad:
-                rep.fail("R-ORDER.junk-first", F, f"{r} before {s}", f"{bad}: ignorable content is still in the tree when {s} interprets / counts / instantiates elements", svg, svg.func("SVG.topicosvg"),
-                         path=[f"entry {F}", bad])
-            else:
-                rep.ok("R-ORDER.junk-first", f"{F}: {r} dominates {s}", "", True)
-    # ---- removers
-    _check_removers(repo, rep)
-    # ---- redundant filters
-    _check_filters(repo, rep)
+    sem.check_noise_invariance(repo, rep, "R-ORDER.junk-first")
+    groups.check_removable_predicate(repo, rep, "R-SITE.redundant-filter", "comments / processing instructions among the children must not influence the keep-or-flatten decision")
+    groups.check_try_remove_group(repo, rep, "R-SITE.redundant-filter", "comments among the children must be skipped when the opacity is pushed")
+    sem.check_traverse(repo, rep, {"order": "R-SITE.redundant-filter", "paths": "R-SITE.redundant-filter"})
 
 
 def _true(call, name):
     v = kwarg(call, name)
     return isinstance(v, ast.Constant) and v.value is True
-
-
-def _check_removers(repo, rep):
-    svg = repo["svg"]
-    # generic: no deletion while walking a live tree iterator, anywhere in svg.py
-    n_loops = 0
-    for q, f in svg.functions.items():
-        for loop in ast.walk(f):
-            if not isinstance(loop, ast.For):
-                continue
-            it = loop.iter
-            live = isinstance(it, ast.Call) and isinstance(it.func, ast.Attribute) and it.func.attr in LIVE_ITERS
-            if not live:
-                continue
-            n_loops += 1
-            deletes = [c for c in ast.walk(loop) if isinstance(c, ast.Call) and (call_name(c).endswith(".remove") and "getparent" in call_name(c) or call_name(c) in ("_safe_remove", "_replace_el")
-                                                                                 or call_name(c).endswith((".replace", ".addnext", ".addprevious")) and "attrib" not in call_name(c) and not any(isinstance(a, ast.Constant) for a in c.args))]
-            if deletes:
-                rep.fail("R-SITE.removers", f"svg.{q}", deletes[0], f"elements are removed/replaced inside `for ... in {unparse(it)}`, a live document-order walk: removing a node with its "
-                         "subtree makes the walk stop early, so later nodes are never visited (nested ignorable content hides following content)", svg, deletes[0])
-            else:
-                rep.ok("R-SITE.removers", f"svg.{q}: for .. in {unparse(it)[:50]}", "no structural edit inside the live walk (targets are collected first)")
-    rep.floor("live tree walks in svg.py", n_loops, 2)
-    # remove_title_meta_desc
-    f = svg.func("SVG.remove_title_meta_desc")
-    t = unparse(f)
-    tags = [n for n in walk_no_nested(f) if isinstance(n, ast.For) and isinstance(n.iter, (ast.Tuple, ast.List))]
-    names = {e.value for l in tags for e in l.iter.elts if isinstance(e, ast.Constant)}
-    if {"title", "desc", "metadata"} <= names and "self.xpath(f'//svg:{tag}')" in t and "el.getparent().remove(el)" in t:
-        rep.ok("R-SITE.removers", "svg.SVG.remove_title_meta_desc", "title, desc, metadata selected anywhere in the tree by materialised xpath lists, then removed")
-    else:
-        rep.fail("R-SITE.removers", "svg.SVG.remove_title_meta_desc", "for tag in ('title','desc','metadata'): for el in self.xpath(f'//svg:{tag}')",
-                 "title/desc/metadata are no longer all selected (by a materialised query) and removed", svg, f)
-    f = svg.func("SVG.remove_anonymous_symbols")
-    if "self.xpath('//svg:symbol[not(@id)]')" in unparse(f) and "el.getparent().remove(el)" in unparse(f):
-        rep.ok("R-SITE.removers", "svg.SVG.remove_anonymous_symbols", "symbols without id, anywhere")
-    else:
-        rep.fail("R-SITE.removers", "svg.SVG.remove_anonymous_symbols", "self.xpath('//svg:symbol[not(@id)]')", "id-less symbols are no longer all removed", svg, f)
-    f = svg.func("SVG.remove_processing_instructions")
-    if "self.xpath('//processing-instruction()')" in unparse(f) and "el.getparent().remove(el)" in unparse(f):
-        rep.ok("R-SITE.removers", "svg.SVG.remove_processing_instructions", "every processing instruction below the root")
-    else:
-        rep.fail("R-SITE.removers", "svg.SVG.remove_processing_instructions", "self.xpath('//processing-instruction()')", "processing instructions are no longer all removed", svg, f)
-    f = svg.func("SVG.remove_nonsvg_content")
-    t = unparse(f)
-    needs = [("good_ns = {svgns(), xlinkns()}", "only svg and xlink namespaces are kept"),
-             ("for el in self.svg_root.getiterator('*'):", "every element is visited"),
-             ("if ns not in good_ns:\n        el_to_rm.append(el)\n        continue", "foreign elements are collected for removal"),
-             ("attr_to_rm.append(attr)", "foreign attributes are collected"),
-             ("del el.attrib[attr]", "and deleted"),
-             ("for el in el_to_rm:\n    el.getparent().remove(el)", "foreign elements removed after the walk")]
-    flat = t.replace("        ", "    ")
-    for needle, what in needs:
-        if needle in t or needle in flat or needle.replace("\n        ", "\n            ") in t or needle.replace("\n    ", "\n        ") in t:
-            rep.ok("R-SITE.removers", f"svg.SVG.remove_nonsvg_content: {what}")
-        else:
-            rep.fail("R-SITE.removers", "svg.SVG.remove_nonsvg_content", needle.split("\n")[0], f"missing: {what}", svg, f)
-
-
-def _check_filters(repo, rep):
-    svg = repo["svg"]
-    from sa.rules import groups
-    groups.check_removable_predicate(repo, rep, "R-SITE.redundant-filter", "comments / processing instructions among the children must not influence the keep-or-flatten decision")
-    groups.check_try_remove_group(repo, rep, "R-SITE.redundant-filter", "comments among the children must be skipped when the opacity is pushed")
-    sites = {
-        "SVG._traverse": ("if _is_redundant(child.tag):\n    continue", "traversal (nth-of-type numbering, context building)"),
-        "SVG._iter_nested_svgs": ("if _is_redundant(el.tag):\n    continue", "nested svg search"),
-    }
-    for q, (needle, what) in sites.items():
-        f = svg.func(q)
-        t = unparse(f)
-        import re as _re
-        pat = _re.escape(needle).replace(r"\
-\ \ \ \ ", r"\n\s+").replace("\\\n    ", r"\n\s+")
-        pat = r"\n\s+".join(_re.escape(part.strip()) for part in needle.split("\n"))
-        if _re.search(pat, t):
-            rep.ok("R-SITE.redundant-filter", f"svg.{q}", f"{what}: comments and processing instructions are skipped", True)
-        else:
-            rep.fail("R-SITE.redundant-filter", f"svg.{q}", needle.split("\n")[0], f"{what} no longer skips comments / processing instructions: their presence changes counts, numbering or decisions", svg, f)
-    # in _traverse the filter must come before the counter update
-    tr = svg.func("SVG._traverse")
-    inner = [l for l in ast.walk(tr) if isinstance(l, ast.For) and unparse(l.iter) == "context.element"]
-    if inner:
-        b = [unparse(s) for s in inner[0].body]
-        i_f = next((i for i, x in enumerate(b) if x.startswith("if _is_redundant(child.tag)")), -1)
-        i_c = next((i for i, x in enumerate(b) if "child_idxs[" in x and "+= 1" in x), -1)
-        if 0 <= i_f < i_c:
-            rep.ok("R-SITE.redundant-filter", "svg.SVG._traverse: filter precedes the nth-of-type counter")
-        else:
-            rep.fail("R-SITE.redundant-filter", "svg.SVG._traverse", "if _is_redundant(child.tag): continue  (before child_idxs[...] += 1)", "ignorable nodes take part in the nth-of-type numbering", svg, inner[0])
-    ir = svg.func("_is_redundant")
-    if "tag is etree.Comment or tag is etree.ProcessingInstruction" in unparse(ir):
-        rep.ok("R-SITE.redundant-filter", "svg._is_redundant: comments and processing instructions")
-    else:
-        rep.fail("R-SITE.redundant-filter", "svg._is_redundant", "tag is etree.Comment or tag is etree.ProcessingInstruction", "the set of ignorable node kinds changed", svg, ir)
 
 
 _S = "svg"
@@ -176,11 +62,11 @@ VARIANTS = [
                                                             Edit(_S, "SVG.topicosvg", "        self.resolve_use(inplace=True)\n", "        self.resolve_use(inplace=True)\n        self.remove_anonymous_symbols(inplace=True)\n")],
             [("R-ORDER.junk-first", "topicosvg")]),
     Variant("traversal does not skip comments", [Edit(_S, "SVG._traverse", "                if _is_redundant(child.tag):\n                    continue\n", "")], [("R-SITE.redundant-filter", "_traverse")]),
-    Variant("foreign attributes kept", [Edit(_S, "SVG.remove_nonsvg_content", "            for attr in attr_to_rm:\n                del el.attrib[attr]\n", "")], [("R-SITE.removers", "remove_nonsvg_content")]),
+    Variant("foreign attributes kept", [Edit(_S, "SVG.remove_nonsvg_content", "            for attr in attr_to_rm:\n                del el.attrib[attr]\n", "")], [("R-ORDER.junk-first", "topicosvg")]),
     Variant("title removal during a live walk", [Edit(_S, "SVG.remove_title_meta_desc", "        for tag in (\"title\", \"desc\", \"metadata\", \"comment\"):\n            for el in self.xpath(f\"//svg:{tag}\"):\n                el.getparent().remove(el)\n",
                                                       "        for el in self.svg_root.iter(*(f\"{{{svgns()}}}{t}\" for t in (\"title\", \"desc\", \"metadata\", \"comment\"))):\n            el.getparent().remove(el)\n")],
-            [("R-SITE.removers", "remove_title_meta_desc")]),
-    Variant("metadata no longer removed", [Edit(_S, "SVG.remove_title_meta_desc", '("title", "desc", "metadata", "comment")', '("title", "desc", "comment")')], [("R-SITE.removers", "remove_title_meta_desc")]),
-    Variant("only root-level symbols", [Edit(_S, "SVG.remove_anonymous_symbols", '"//svg:symbol[not(@id)]"', '"/svg:svg/svg:symbol[not(@id)]"')], [("R-SITE.removers", "remove_anonymous_symbols")]),
+            [("R-ORDER.junk-first", "topicosvg")]),
+    Variant("metadata no longer removed", [Edit(_S, "SVG.remove_title_meta_desc", '("title", "desc", "metadata", "comment")', '("title", "desc", "comment")')], [("R-ORDER.junk-first", "topicosvg")]),
+    Variant("only root-level symbols", [Edit(_S, "SVG.remove_anonymous_symbols", '"//svg:symbol[not(@id)]"', '"/svg:svg/svg:symbol[not(@id)]"')], [("R-ORDER.junk-first", "topicosvg")], allow_analysis_error=True),
     Variant("silent: swap two removers", [Edit(_S, "SVG.topicosvg", "        self.remove_nonsvg_content(inplace=True)\n        self.remove_processing_instructions(inplace=True)\n", "        self.remove_processing_instructions(inplace=True)\n        self.remove_nonsvg_content(inplace=True)\n")], silent=True),
 ]
